@@ -111,6 +111,7 @@ structure CaseSt where
   asts : List (String × Option (List Stmt)) := []
   st : Index := {}
   pfx : Path := []
+  evicted : List Path := []
   scanOrder : List (String × String × List Path) := []     -- (map D|U, name, files in vector order)
   pfxDirs : Path := []
   rootName : String := "ws"
@@ -181,20 +182,20 @@ def specForUsage (st : Index) (u : Usage) : List Def :=
 
 /-- does the import graph of the workspace contain a cycle (E12: a result truncated by the
     `visited` cut is memoised)? -/
-def hasImportCycle (st : Index) : Bool :=
-  let es := specEdges st
+def hasImportCycleE (es : List Spec.Edge) : Bool :=
   let succ (n : Path) : List Path := (es.filter (·.src == n)).map (·.dst)
   let reach (fuel : Nat) (start : Path) : List Path :=
     (List.range fuel).foldl (fun acc _ => (acc ++ acc.flatMap succ).eraseDups) (succ start)
   (es.map (·.src)).eraseDups.any (fun n => (reach (es.length + 1) n).contains n)
+
+def hasImportCycle (st : Index) : Bool := hasImportCycleE (specEdges st)
 
 /-- which hypotheses of the partial theorems fail for resolving `n` from `f` over `ix`
     (names match `known_findings.json`):
     * `imp-first`  — some ancestor conftest imports the name while the first registered definition
                      of that name is not one the conftest provides (¬H_imp, E1);
     * `alias`      — the name is imported under an alias somewhere (`import n as m`). -/
-def specFlags (st : Index) (ix : List Def) (f : Path) (n : String) : List String :=
-  let es := specEdges st
+def specFlagsE (es : List Spec.Edge) (st : Index) (ix : List Def) (f : Path) (n : String) : List String :=
   let impFirst := (ancestorsOfDir (dirOf f)).any (fun dir =>
     let c := conftestOf dir
     (st.existsOnDisk c || ahas st.cache c) && (st.isImportedIn n c).1 &&
@@ -223,7 +224,11 @@ def specFlags (st : Index) (ix : List Def) (f : Path) (n : String) : List String
     (if alias then ["alias"] else []) ++
     (if multiThird then ["multi-third"] else []) ++ (if multiPlugin then ["multi-plugin"] else []) ++
     (if badConf then ["unparsable-conftest"] else []) ++
-    (if hasImportCycle st then ["import-cycle"] else [])
+    (if hasImportCycleE es then ["import-cycle"] else [])
+
+/-- (the edges of the import graph are computed once per query and shared) -/
+def specFlags (st : Index) (ix : List Def) (f : Path) (n : String) : List String :=
+  specFlagsE (specEdges st) st ix f n
 
 def flagStr (fl : List String) : String := if fl.isEmpty then "" else " FLAGS=" ++ ",".intercalate fl
 
@@ -649,16 +654,20 @@ def runSpec (c : CaseSt) (t : List String) : Option String :=
   let st := c.st
   match t with
   | ["goto", p, l, ch] => some (specGoto st (pathOf p) l.toNat! ch.toNat!)
-  | ["resolve", p, n] => some (sorted ((specAcceptable st st.defs (pathOf p) n).map defShort) ++
-      flagStr (specFlags st st.defs (pathOf p) n))
+  | ["resolve", p, n] =>
+    let es := specEdges st
+    some (sorted ((Spec.acceptable st.defs es (specConfs st) (pathOf p) n).map defShort) ++
+      flagStr (specFlagsE es st st.defs (pathOf p) n))
   | ["avail", p] =>
     let f := pathOf p
     let names := sortStrs (namesOf st.defs)
     let stale := match alookup st.availCache f, alookup st.availEpoch f with
       | some (ver, _), some ep => ver == st.version && ep != st.epoch
       | _, _ => false
+    let es := specEdges st
+    let confs := specConfs st
     some ((if stale then "CACHE FLAGS=stale-version-key;" else "") ++ ";".intercalate (names.filterMap (fun n =>
-      let acc := specAcceptable st st.defs f n
+      let acc := Spec.acceptable st.defs es confs f n
       let dupSame := ((defsOf st.defs n).filter (·.file == f)).length ≥ 2
       let uncached := (ancestorsOfDir (dirOf f)).any (fun dir =>
         let c := conftestOf dir
@@ -669,7 +678,7 @@ def runSpec (c : CaseSt) (t : List String) : Option String :=
       -- a definition no cascade class of `resolve_fixture_for_file` accepts makes its fallback reachable
       let stray := (defsOf st.defs n).any (fun d => d.file != f && !d.thirdParty && !d.plugin &&
         !(isConftestName d.file && pathStartsWith f (dirOf d.file)))
-      let fl := specFlags st st.defs f n ++ (if dupSame then ["dup-samefile"] else []) ++
+      let fl := specFlagsE es st st.defs f n ++ (if dupSame then ["dup-samefile"] else []) ++
         (if uncached then ["uncached-conftest"] else []) ++ (if impAny then ["imported-name"] else []) ++
         (if stray then ["stray-def"] else [])
       if acc.isEmpty && fl.isEmpty then none else some s!"{n}={sorted (acc.map defShort)}{flagStr fl}")))
@@ -685,10 +694,12 @@ def runSpec (c : CaseSt) (t : List String) : Option String :=
   | ["imported", _] => some ("-" ++ flagStr (if hasImportCycle st then ["import-cycle"] else []))
   | ["refs", _, _, n] =>
     let us := st.allUsages.filter (·.name == n)
-    let rf := (us.flatMap (fun u => specFlags st (usageIx st u) u.file u.name)).eraseDups
+    let es := specEdges st
+    let rf := (us.flatMap (fun u => specFlagsE es st (usageIx st u) u.file u.name)).eraseDups
     some ("-" ++ flagStr ((if us.eraseDups.length != us.length then ["dup-usage-recorded"] else []) ++ rf))
   | ["unused"] =>
-    some ("-" ++ flagStr ((st.allUsages.flatMap (fun u => specFlags st (usageIx st u) u.file u.name)).eraseDups))
+    let es := specEdges st
+    some ("-" ++ flagStr ((st.allUsages.flatMap (fun u => specFlagsE es st (usageIx st u) u.file u.name)).eraseDups))
   | ["cycles"] => some ("-" ++ flagStr (cycleFlags st) ++ " GRAPH=" ++ specDepGraph st)
   | ["cyclesin", _] => some ("-" ++ flagStr (cycleFlags st))
   | ["mismatch", p] =>
@@ -721,6 +732,10 @@ def runOp (c : CaseSt) (t : List String) : String × CaseSt :=
       let (st, panicked) := Index.analyze c.pfx false c.st (pathOf p) v
       (if panicked then "PANIC" else "ok", { c with st := st })
   | ["close", p] => ("ok", { c with st := c.st.closeFile (pathOf p) })
+  | "evictsync" :: _ =>
+    -- `evict_cache_if_needed` removes, for the files it picks, exactly what `cleanup_file_cache` removes;
+    -- which files it picked is an input (hint evicted)
+    ("ok", { c with st := c.evicted.foldl (fun st f => st.closeFile f) c.st, evicted := [] })
   | "scan" :: pats =>
     let globs := pats.map (fun h => (unhexStr? h).getD "")
     let excluded (f : Path) : Bool := globs.any (fun g => globMatch g.toList (showPath f).toList)
@@ -761,6 +776,8 @@ def step (c : CaseSt) (line : String) : Option String × CaseSt :=
     let d := (p.splitOn "/").filter (· != "")
     (none, { c with pfxDirs := d, pfx := d })
   | ["rootname", n] => (none, { c with rootName := n })
+  | ["hint", "evicted", o] =>
+    (none, { c with evicted := if o == "-" then [] else (o.splitOn ",").map pathOf })
   | ["hint", "scanorder", o] =>
     -- `D:foo=f1,f2;U:foo=f2,f1;…`
     (none, { c with scanOrder := if o == "-" then [] else (o.splitOn ";").filterMap (fun e =>
